@@ -5,7 +5,8 @@ import json
 
 from harness import kit, ser
 
-NAMES = ["flatten", "fold", "cfold", "collect", "expand", "expand_nc", "expand_p"]
+NAMES = ["flatten", "fold", "cfold", "collect", "expand", "expand_nc", "expand_p", "cfold_reused", "expand_reused"]
+_REUSED = {}
 
 
 def drive_case(case, extra):
@@ -25,8 +26,18 @@ def drive_case(case, extra):
         lambda: distribute(e),
         lambda: distribute(e, commutative=False),
         lambda: distribute(e, parameters=frozenset(params)),
+        # one long-lived mapper instance per worker process, reused over the stream of cases
+        lambda: _reused("cfold", CommutativeConstantFoldingMapper)(e),
+        lambda: _reused("dist", lambda: __import__("pymbolic.mapper.distributor", fromlist=["x"])
+                        .DistributeMapper(TermCollector(frozenset())))(e),
     ]
     return {"id": case["id"], "e": case["e"], "out": [ser.obj_to_json(f) for f in fns]}
+
+
+def _reused(key, factory):
+    if key not in _REUSED:
+        _REUSED[key] = factory()
+    return _REUSED[key]
 
 
 def kinds_in(e, acc=None):
@@ -75,7 +86,8 @@ def classify(out, verdicts, byid):
                 continue
             res = rec["out"][NAMES.index(b["rw"])]
             errname = res.get("v", {}).get("e", "") if res.get("r") == "err" else ""
-            hit = next((k for k in known if k.get("rewrite") == b["rw"] and k.get("pattern") in pats
+            hit = next((k for k in known if k.get("rewrite") == b["rw"].replace("_reused", "")
+                        and k.get("pattern") in pats
                         and k.get("clause") in cl), None)
             sig = hit or {"rewrite": b["rw"], "clauses": cl, "error": errname, "patterns": sorted(pats)}
             out.fail(sig, {"case": {"id": rec["id"], "e": rec["e"]}, "rewrite": b["rw"], "recorded": res})
